@@ -2,23 +2,23 @@ from props import cfg
 
 CFG = cfg('C15', refine=[], extract='Ex_C15', driver='c15',
           rule='model-based testing of key-management histories on real Ed25519 keys (Ed25519 / Curve25519 subkeys), explicit created= times with '
-               'same-second collisions, datetime.now frozen for the cross-signature: after a 4-step preamble on 2 keys, ALL histories of depth 1 over 38 '
-               'operation instances, depth 2 over 20, depth 3 over 10 (quick) / depth 2 over 38, depth 3 over 20, depth 4 over 10 (thorough, within a '
+               'same-second collisions, datetime.now frozen for the cross-signature: after a 4-step preamble on 2 keys, ALL histories of depth 1 over 41 '
+               'operation instances, depth 2 over 21, depth 3 over 10 (quick) / depth 2 over 41, depth 3 over 21, depth 4 over 10 (thorough, within a '
                'time budget - completed sweeps are listed under exhaustive_domains), hand-written histories, and random walks of depth 30 over the whole '
-               'operation set (create, add_uid text/image with preference sets, recertify, third-party certify of a user id and of the key itself (direct-key signature) incl. exportable 0/1, revoke uid / subkey / '
+               'operation set (create, add_uid text/image with preference sets, recertify, third-party certify of a user id and of the key itself (direct-key signature) incl. exportable 0/1, attestation (0x16) by the key on its own identity, revoke uid / subkey / '
                'key, add revoker, del_uid, add_subkey signing / encryption, protect, unlock, lock, copy, export+import, publish the public twin) on up to '
                '4 key objects; after the compared steps the observable state of every object and of its public twin (signature lists with type / issuer / '
                'created / exportable / primary mark / flags+expiry+preferences, user id order, selfsig-derived effective attributes, key expiry, '
                'revocation reports, lock state) is compared with the extracted model, and the direct oracle runs on the real code: every signature '
                'verifies cryptographically under its issuer on the object, its twin, and the re-imports of bytes(key), str(key), bytes(key.pubkey); '
-               'selfsig = greatest (created, order of addition); removed identity absent; revocation reports change only for the target; PGPKey.get_uid returns the first identity with a field EQUAL '
+               'selfsig = the self-issued CERTIFICATION with the greatest (created, order of addition); a revocation / attestation by the key leaves effective attributes and key expiry unchanged; removed identity absent; revocation reports change only for the target; PGPKey.get_uid returns the first identity with a field EQUAL '
                'to the search string (names that are proper substrings of other names / e-mail fields are in every alphabet); bytes(key) split into packets is '
                'key + its exportable signatures + every user id / subkey with its exportable signatures. '
                'distinct = distinct histories',
           trusted=['tools/harness/c15.py RealWorld: mapping of an abstract operation to PGPy API calls and of PGPy objects to the canonical state string'],
           assumptions=['PARTIAL: signatures are symbolic in the theorems (verifies = recomputation of the digest term under the issuer label); the signature '
                        'primitive is exercised only by the harness (Ed25519 through cryptography/OpenSSL)',
-                       'PGPUID.selfsig counts a certification revocation issued by the key as the newest self-signature (model follows the code)',
+                       'PGPUID.selfsig is the newest self-certification (types 0x10-0x13 issued by the key, repair 812bc0f); the rule before it is kept as selfsig_old and refuted',
                        'add_subkey is applied only to keys without passphrase protection; one passphrase per run; unlock/lock = entering/leaving `with key.unlock()`',
                        'earlier public twin objects kept by a caller are not modelled (every .pubkey call derives a new twin; mirroring into a live older twin through __or__ is outside the model)',
                        'key material / key ids / fingerprints are labels; user ids are addressed by (kind, content) with first-match semantics like PGPKey.get_uid',
@@ -29,9 +29,9 @@ TEXT = ('Rocq theorems (Props/C15.v, closed under the global context) over a mod
         'embedded cross- and revocation signature verifies symbolically for the component it sits on; signing-capable subkeys have a cross-signature; all '
         'lists in order; subkey dictionary well formed) holds initially, is preserved by every operation, hence in every reachable world (induction over '
         'arbitrary operation lists with fold_left), survives export/import (via C14) and holds for the public twin, which is equivalent to the key; '
-        'selfsig is the newest self-issued signature and with the stable insort the later-added of two same-second signatures wins; a removed identity '
+        'selfsig is the newest self-issued certification (none iff the key issued none), with the stable insort the later-added of two same-second certifications wins, and a revocation / attestation / third-party signature leaves it unchanged; a removed identity '
         'is absent from the key, its copy, its twin, its export and re-import; a revocation changes the report of exactly the revoked component; '
-        'refutation witnesses for the pre-repair code (same-second tie, stale user id order). PARTIAL: symbolic signatures. Tie: pinned source text + '
+        'refutation witnesses for the pre-repair code (same-second tie, stale user id order, selfsig = newest signature of any type: a revoked identity un-expired the key). PARTIAL: symbolic signatures. Tie: pinned source text + '
         'model-based testing of the extracted model against real Ed25519 keys with cryptographic verification oracles.',
         'DESIGN.md 5 C15',
         'machine-checked proof in Rocq (Coq 8.16.1) + extracted-model correspondence (model-based testing)')
